@@ -27,6 +27,8 @@ func propC09(c *Ctx) {
 	c.ruleInstanceIdentity()
 	c.ruleMemoCoverage("C09-MEMO-KEY-COVERS")
 	c.ruleC14ValidateFirst()
+	c.rulePhaseConstructor() // an error of a directive in an included file is located in that file
+	c.ruleTraceRecorder("C09-TRACE-RECORDER")
 	// a piece may end without a line break wherever a line may end
 	if m := c.E1Base(); m != nil {
 		c.ruleEOFAsEOL(m, c.Analysis(stackK, false))
@@ -635,6 +637,7 @@ type nsAccess struct {
 var nameSpaces = map[string]string{
 	"macro": "macros", "rules": "enums", "UserEnums": "enums", "Tags": "tags",
 	"rawUserTypes": "user types", "userTypes": "user types", "UserTypes": "user types",
+	"catalogUserTypes": "user types", // the exchange schemas keep a pointer to catalog.UserTypes under this name
 }
 
 // nameSpaceOf: the name space an expression denotes: one of the known cross-block spaces, or -- for any other map or
